@@ -1,0 +1,26 @@
+//go:build verif
+
+package sandbox
+
+// Contracts checked by /verif (govc). Comment-only file; not part of normal builds.
+
+// ---- C19: a script that raises an error does not keep the shared throttle slot ----
+// The throttle is shared by all scripts. Every binding that takes a slot hands the release
+// function to a defer before anything can raise: whenever ls.RaiseError is reached (it unwinds the
+// Go stack by panicking) and whenever the binding returns, a slot that was acquired is either
+// already released or its release is deferred.
+//@ ghost $slot bool
+//@ ghost $slotReleaseDeferred bool
+//@ func (*Sandbox).{configGet,imageCopy,imageExportTar,imageImportTar}
+//@   prop C19
+//@   entry-assume !$slot && !$slotReleaseDeferred
+//@   on-call Acquire: $slot = (result1 == nil)
+//@   on-defer var:done: $slotReleaseDeferred = true
+//@   on-call var:done: $slot = false
+//@   ensures slot-given-back: !$slot || $slotReleaseDeferred
+//@ callsite (*github.com/yuin/gopher-lua.LState).RaiseError(format, args)
+//@   prop C19
+//@   name RaiseError/throttled-binding
+//@   in ~/cmd/regbot/sandbox
+//@   infunc Sandbox\)\.(configGet|imageCopy|imageExportTar|imageImportTar)$
+//@   requires slot-not-kept-by-the-error: !$slot || $slotReleaseDeferred
